@@ -114,6 +114,18 @@ Scal == /\ pc = "scal"
         /\ sc' = S!Scal(tb, dd, cx, Rsp(mi), cx.nm)
         /\ wts' = Append(wts, FSub(Zero21, Rec[l].per[mi].oB))        \* the weight is DEFINED by the scalar on B
         /\ pc' = "acc" /\ UNCHANGED <<l, scripts, abs, chal, rng, mi, r, cfg, wtid, cx, tb, dd, acc>>
+\* mask recovery as an equation without inverses (C09, C10): the recovered value m_k is the unique solution of
+\*   d1_k = eta_k + e*d_k + e^2 * (alpha_k + sum_j (e_j^2 dL_jk + e_j^-2 dR_jk) + m_k * z^2 * y^(nm+1))
+\* with the nonces derived from the VERIFIER's seed (right seed: the blinding factor; wrong seed: some other value)
+RECURSIVE SumLRn(_,_,_)
+SumLRn(nr, kk, j) == IF j > cx.k THEN Zero21
+                     ELSE FAdd(FAdd(FMul(FMul(cx.es[j], cx.es[j]), nr.dL[j][kk]), FMul(FMul(cx.esinv[j], cx.esinv[j]), nr.dR[j][kk])), SumLRn(nr, kk, j + 1))
+MaskOk(mb) ==
+  IF cfg.mode = "VerifyOnly" \/ ~mb.seeded THEN mb.mask = <<>>
+  ELSE /\ Len(mb.mask) = cx.t
+       /\ \A kk \in 1..cx.t :
+            mb.d1[kk] = FAdd(mb.nref.eta[kk], FAdd(FMul(cx.e, mb.nref.d[kk]),
+                          FMul(sc.e2, FAdd(FAdd(mb.nref.alpha[kk], SumLRn(mb.nref, kk, 1)), FMul(mb.mask[kk], FMul(sc.z2, sc.ynm1))))))
 \* weight provenance: a non-zero reduction of an output of the weight generator
 WeightFills == UNION { {rng[rid].fills[f].wide : f \in 1..Len(rng[rid].fills)} : rid \in {x \in DOMAIN rng : rng[x].tid = wtid} }
 Acc == /\ pc = "acc"
@@ -124,6 +136,7 @@ Acc == /\ pc = "acc"
           /\ per.oA = FMul(w, S!RefA(sc)) /\ per.oA1 = FMul(w, S!RefA1(cx))
           /\ \A j \in 1..cx.k : per.oL[j] = FMul(w, S!RefL(sc, cx, j)) /\ per.oR[j] = FMul(w, S!RefR(sc, cx, j))
           /\ \A j \in 1..cx.m : per.oV[j] = FMul(w, S!RefV(tb, sc, j))
+          /\ (cfg.result = "ok") => MaskOk(mb)
           /\ acc' = [Gi |-> [x \in 1..Len(acc.Gi) |-> IF x <= cx.nm THEN FAdd(acc.Gi[x], FMul(w, S!RefGi(tb, sc, x-1))) ELSE acc.Gi[x]],
                      Hi |-> [x \in 1..Len(acc.Hi) |-> IF x <= cx.nm THEN FAdd(acc.Hi[x], FMul(w, S!RefHi(tb, dd, sc, cx, cx.nm, x-1))) ELSE acc.Hi[x]],
                      H  |-> FAdd(acc.H, FMul(w, S!RefH(tb, sc, cx, rsp, mb.prom, cx.m))),
